@@ -12,10 +12,14 @@ fn finite(x: f32) -> bool {
 }
 
 fn block(gates: u16) -> GenericDataBlock {
+    let scale: f32 = kani::any();
+    block_with_scale(gates, scale)
+}
+
+fn block_with_scale(gates: u16, scale: f32) -> GenericDataBlock {
     let mut hb = [0u8; 28];
     hb[8..10].copy_from_slice(&gates.to_be_bytes());
     hb[19] = 8;
-    let scale: f32 = kani::any();
     let offset: f32 = kani::any();
     kani::assume(finite(scale) && finite(offset));
     hb[20..24].copy_from_slice(&scale.to_bits().to_be_bytes());
@@ -41,9 +45,22 @@ fn expect_moment(b: &Option<GenericDataBlock>) -> Option<MomentData> {
     b.as_ref().map(|b| MomentData::from_fixed_point(b.header.scale, b.header.offset, b.encoded_data.clone()))
 }
 
+use std::sync::atomic::{AtomicI64, AtomicU32, Ordering::Relaxed};
+static SPY_DATE: AtomicU32 = AtomicU32::new(0);
+static SPY_MS: AtomicI64 = AtomicI64::new(0);
+/// recording stand-in for `get_datetime` (the real function is under contract in C08; `Header::date_time` is proved
+/// to pass its own date and time fields in c08s.rs): returns a recognisable instant derived from its arguments
+fn get_datetime_spy(d: u16, past_midnight: chrono::Duration) -> Option<chrono::DateTime<chrono::Utc>> {
+    SPY_DATE.store(d as u32, Relaxed);
+    SPY_MS.store(past_midnight.num_milliseconds(), Relaxed);
+    chrono::DateTime::from_timestamp(777, 0)
+}
+
 /// header part of the mapping: for every 32-byte header (no moment blocks) the borrowing and the consuming
-/// conversion agree and report exactly the message's fields (complete: loop-free over all header bytes)
+/// conversion agree and report exactly the message's fields (complete: loop-free over all header bytes); the
+/// collection time is the epoch-millisecond value of the header's own date-time (callee spied, see above)
 #[kani::proof]
+#[kani::stub(crate::util::get_datetime, get_datetime_spy)]
 fn c07_radial_header_mapping() {
     let hb: [u8; 32] = kani::any();
     let mut r: &[u8] = &hb;
@@ -74,7 +91,8 @@ fn c07_radial_header_mapping() {
         if let Some(w) = want {
             assert!(a.radial_status() == w);
         }
-        assert!(Some(a.collection_timestamp()) == h.date_time().map(|d| d.timestamp_millis()));
+        assert!(a.collection_timestamp() == 777_000 && b.collection_timestamp() == 777_000);
+        assert!(SPY_DATE.load(Relaxed) == h.date as u32 && SPY_MS.load(Relaxed) == h.time as i64);
         assert!(a.reflectivity().is_none() && a.velocity().is_none() && a.spectrum_width().is_none());
         assert!(a.differential_reflectivity().is_none() && a.differential_phase().is_none());
         assert!(a.correlation_coefficient().is_none() && a.specific_differential_phase().is_none());
@@ -137,8 +155,8 @@ fn c07_radial_moment_bytes() {
 /// gate values, 8-bit words, a concrete gate count per harness (a symbolic Vec length is what makes CBMC time out):
 /// raw 0 below threshold, raw 1 range folded, otherwise (raw - offset) / scale, or raw itself when scale is 0 —
 /// identically (bit for bit) at the decode and the model level, exactly one value per gate
-fn values_formula(gates: u16) {
-    let b = block(gates);
+fn values_formula(gates: u16, scale: f32) {
+    let b = block_with_scale(gates, scale);
     let scale = b.header.scale;
     let offset = b.header.offset;
     let d = b.decoded_values();
@@ -178,13 +196,24 @@ fn values_formula(gates: u16) {
     core::mem::forget(b);
 }
 
+/// all finite scale / offset pairs, all 256 raw values (thorough tier: a fully symbolic f32 division takes long)
 #[kani::proof]
 #[kani::unwind(4)]
-fn c07_values_formula_1gate() { values_formula(1); }
+fn c07_values_formula_1gate() { values_formula(1, kani::any()); }
 
 #[kani::proof]
 #[kani::unwind(5)]
-fn c07_values_formula_2gates() { values_formula(2); }
+fn c07_values_formula_2gates() { values_formula(2, kani::any()); }
+
+/// quick-tier variant: the scale ranges over representative constants (zero, a power of two, non-powers of two,
+/// a subnormal), offset and raw value fully symbolic
+#[kani::proof]
+#[kani::unwind(4)]
+fn c07_values_formula_scales() {
+    let k: u8 = kani::any();
+    let scale = match k % 6 { 0 => 0.0f32, 1 => 2.0, 2 => 300.0, 3 => 2.8361, 4 => 1.0e-39, _ => -0.5 };
+    values_formula(1, scale);
+}
 
 /// exactly one value per gate for 16-bit moments too (GenericDataBlock::new sizes the buffer gates x 2)
 #[kani::proof]
@@ -202,16 +231,3 @@ fn c07_values_one_per_gate_16bit() {
     assert!(b.moment_data().values().len() == gates as usize);
 }
 
-/// GenericDataBlock::new sizes the gate buffer gates x (word_size / 8) for every u16 x u8
-#[kani::proof]
-fn c02_generic_block_new_len() {
-    let gates: u16 = kani::any();
-    let ws: u8 = kani::any();
-    let mut hb = [0u8; 28];
-    hb[8..10].copy_from_slice(&gates.to_be_bytes());
-    hb[19] = ws;
-    let mut r: &[u8] = &hb;
-    let h: GenericDataBlockHeader = crate::util::deserialize(&mut r).unwrap();
-    let b = GenericDataBlock::new(h);
-    assert!(b.encoded_data.len() == gates as usize * (ws as usize / 8));
-}
